@@ -9,180 +9,8 @@ line, one JSON object per output line.
   {"cmd":"dump"}                        canonical dump of the store
   {"cmd":"allowed", …}                  one evaluation of the decision function
 -/
-import Lean.Data.Json
-import KmipModel.Engine.Batch
-import KmipModel.Gen.Tables
-open Lean Kmip
-
-abbrev P := Except String
-
-def jget (j : Json) (k : String) : Json := (j.getObjVal? k).toOption.getD Json.null
-
-def asNat (j : Json) : P Nat := match j.getNat? with | .ok n => pure n | .error e => throw s!"nat: {e} in {j.compress}"
-def asInt (j : Json) : P Int := match j.getInt? with | .ok n => pure n | .error e => throw s!"int: {e} in {j.compress}"
-def asStr (j : Json) : P String := match j.getStr? with | .ok n => pure n | .error e => throw s!"str: {e} in {j.compress}"
-def asBool (j : Json) : P Bool := match j.getBool? with | .ok n => pure n | .error e => throw s!"bool: {e} in {j.compress}"
-def asArr (j : Json) : P (Array Json) := match j.getArr? with | .ok n => pure n | .error e => throw s!"arr: {e} in {j.compress}"
-def opt {α} (f : Json → P α) (j : Json) : P (Option α) := if j.isNull then pure none else some <$> f j
-def listOf {α} (f : Json → P α) (j : Json) : P (List α) := do
-  if j.isNull then pure [] else (← asArr j).toList.mapM f
-
-def pAVal (j : Json) : P AVal := do
-  match (← asStr (jget j "k")) with
-  | "enum" => .enum <$> asNat (jget j "v")
-  | "int" => .int <$> asInt (jget j "v")
-  | "text" => .text <$> asStr (jget j "v")
-  | "bool" => .bool <$> asBool (jget j "v")
-  | "name" => .name <$> asStr (jget j "v") <*> asNat (jget j "t")
-  | "appinfo" => .appInfo <$> asStr (jget j "ns") <*> asStr (jget j "d")
-  | "date" => .date <$> asInt (jget j "v")
-  | "other" => pure .other
-  | k => throw s!"aval kind {k}"
-
-def pTAttr (j : Json) : P TAttr := do
-  pure ⟨← asStr (jget j "name"), ← opt asInt (jget j "index"), ← pAVal (jget j "value")⟩
-
-def pTemplate (j : Json) : P Template := do
-  pure ⟨← asNat (jget j "tnames"), ← listOf pTAttr (jget j "attrs")⟩
-
-def pRegObj (j : Json) : P RegObj := do
-  pure ⟨← asNat (jget j "otype"), ← asStr (jget j "value"), ← opt asNat (jget j "alg"), ← opt asNat (jget j "len"),
-        ← opt asNat (jget j "format"), ← opt asNat (jget j "subtype")⟩
-
-def pCrypto (j : Json) : P Crypto := do
-  if j.isNull then pure .internal else
-  match (← asStr (jget j "k")) with
-  | "ok" => .ok <$> asStr (jget j "t")
-  | "ok2" => .ok2 <$> asStr (jget j "pub") <*> asStr (jget j "priv") <*> asNat (jget j "pubfmt") <*> asNat (jget j "privfmt")
-  | "verdict" => .verdict <$> asBool (jget j "v")
-  | "kmip" => .kmipError <$> asNat (jget j "reason")
-  | "internal" => pure .internal
-  | k => throw s!"crypto kind {k}"
-
-def pWrap (j : Json) : P WrapSpec := do
-  pure ⟨← asNat (jget j "method"), ← opt asStr (jget j "enckey"), ← asBool (jget j "encparams"),
-        ← asBool (jget j "mackey"), ← asNat (jget j "attrnames"), ← opt asNat (jget j "encoding")⟩
-
-def pPayload (j : Json) : P Payload := do
-  let u ← opt asStr (jget j "uid")
-  match (← asStr (jget j "op")) with
-  | "create" => pure (Payload.create (← asNat (jget j "otype")) (← opt pTemplate (jget j "tmpl")))
-  | "createKeyPair" => pure (Payload.createKeyPair (← opt pTemplate (jget j "common")) (← opt pTemplate (jget j "priv")) (← opt pTemplate (jget j "pub")))
-  | "register" => pure (Payload.register (← asNat (jget j "otype")) (← opt pTemplate (jget j "tmpl")) (← opt pRegObj (jget j "obj")))
-  | "deriveKey" => pure (Payload.deriveKey (← asNat (jget j "otype")) (← listOf asStr (jget j "uids")) (← opt pTemplate (jget j "tmpl")) true 0)
-  | "locate" => pure (Payload.locate (← opt asInt (jget j "max")) (← opt asInt (jget j "offset")) (← listOf pTAttr (jget j "attrs")))
-  | "get" => pure (Payload.get u (← opt asNat (jget j "format")) (← asBool (jget j "compression")) (← opt pWrap (jget j "wrap")))
-  | "getAttributes" => pure (Payload.getAttributes u (← listOf asStr (jget j "names")))
-  | "getAttributeList" => pure (Payload.getAttributeList u)
-  | "activate" => pure (Payload.activate u)
-  | "revoke" => pure (Payload.revoke u (← opt asNat (jget j "code")))
-  | "destroy" => pure (Payload.destroy u)
-  | "query" => pure (Payload.query (← listOf asNat (jget j "functions")))
-  | "discoverVersions" => pure (Payload.discoverVersions (← listOf asNat (jget j "versions")))
-  | "encrypt" => pure (Payload.encrypt u (← asBool (jget j "params")))
-  | "decrypt" => pure (Payload.decrypt u (← asBool (jget j "params")))
-  | "sign" => pure (Payload.sign u (← asBool (jget j "params")))
-  | "signatureVerify" => pure (Payload.signatureVerify u (← asBool (jget j "params")))
-  | "mac" => pure (Payload.mac u (← opt asNat (jget j "alg")) (← asBool (jget j "data")))
-  | "setAttribute" => pure (Payload.setAttribute u (← pTAttr (jget j "attr")))
-  | "modifyAttribute" => pure (Payload.modifyAttribute u (← opt pTAttr (jget j "attr")) (← opt pTAttr (jget j "current")) (← opt pTAttr (jget j "new")))
-  | "deleteAttribute" => pure (Payload.deleteAttribute u (← opt asStr (jget j "name")) (← opt asInt (jget j "index")) (← opt pTAttr (jget j "current")) (← opt asStr (jget j "reference")))
-  | "unsupported" => pure (Payload.unsupported (← asNat (jget j "code")))
-  | k => throw s!"op {k}"
-
-def pItem (j : Json) : P Item := do
-  pure ⟨← pPayload j, ← opt asStr (jget j "bid"), ← pCrypto (jget j "crypto")⟩
-
-def pRequest (j : Json) : P Request := do
-  pure { version := ← asNat (jget j "version"), timeStamp := ← opt asInt (jget j "ts"),
-         async := ← opt asBool (jget j "async"), batchOption := ← opt asNat (jget j "bopt"),
-         maxResponseSize := ← opt asNat (jget j "maxsize"), items := ← listOf pItem (jget j "items") }
-
-def pIdentity (j : Json) : P Identity := do
-  pure ⟨← opt asStr (jget j "user"), ← opt (listOf asStr) (jget j "groups")⟩
-
-def pPerm (j : Json) : P Perm := do
-  match (← asStr j) with
-  | "ALLOW_ALL" => pure .allowAll
-  | "ALLOW_OWNER" => pure .allowOwner
-  | "DISALLOW_ALL" => pure .disallowAll
-  | _ => pure .other
-
-/-- `[[otype, [[op, perm], …]], …]` -/
-def pObjTable (j : Json) : P ObjTable := listOf (fun row => do
-  let a ← asArr row
-  let ops ← listOf (fun r => do
-    let b ← asArr r
-    pure (← asNat b[0]!, ← pPerm b[1]!)) a[1]!
-  pure (← asNat a[0]!, ops)) j
-
-def pBundle (j : Json) : P Bundle := do
-  let groups ← opt (listOf (fun row => do
-    let a ← asArr row
-    pure (← asStr a[0]!, ← pObjTable a[1]!))) (jget j "groups")
-  pure ⟨← opt pObjTable (jget j "preset"), groups⟩
-
-def pPolicies (j : Json) : P Policies := listOf (fun row => do
-  let a ← asArr row
-  pure (← asStr a[0]!, ← pBundle a[1]!)) j
-
-/-! output -/
-def jOpt {α} (f : α → Json) : Option α → Json
-  | none => Json.null
-  | some a => f a
-def jNat (n : Nat) : Json := Json.num n
-def jInt (n : Int) : Json := Json.num (JsonNumber.fromInt n)
-
-def jAVal : AVal → Json
-  | .enum n => Json.mkObj [("k", "enum"), ("v", jNat n)]
-  | .int n => Json.mkObj [("k", "int"), ("v", jInt n)]
-  | .text s => Json.mkObj [("k", "text"), ("v", s)]
-  | .bool b => Json.mkObj [("k", "bool"), ("v", b)]
-  | .name s t => Json.mkObj [("k", "name"), ("v", s), ("t", jNat t)]
-  | .appInfo a b => Json.mkObj [("k", "appinfo"), ("ns", a), ("d", b)]
-  | .date n => Json.mkObj [("k", "date"), ("v", jInt n)]
-  | .other => Json.mkObj [("k", "other")]
-
-def jTAttr (a : TAttr) : Json :=
-  Json.mkObj [("name", a.name), ("index", jOpt jInt a.index), ("value", jAVal a.value)]
-
-def jData : Data → Json
-  | .uid u => Json.mkObj [("k", "uid"), ("uid", u)]
-  | .uidAttr u a => Json.mkObj [("k", "uidattr"), ("uid", u), ("attr", jOpt jTAttr a)]
-  | .keyPair pr pu => Json.mkObj [("k", "keypair"), ("priv", pr), ("pub", pu)]
-  | .uids us => Json.mkObj [("k", "uids"), ("uids", Json.arr (us.map Json.str).toArray)]
-  | .object ot u v a l f st w => Json.mkObj [("k", "object"), ("otype", jNat ot), ("uid", u), ("value", v),
-      ("alg", jOpt jNat a), ("len", jOpt jNat l), ("format", jOpt jNat f), ("subtype", jOpt jNat st), ("wrapped", w)]
-  | .attrs u as => Json.mkObj [("k", "attrs"), ("uid", u), ("attrs", Json.arr (as.map jTAttr).toArray)]
-  | .names u ns => Json.mkObj [("k", "names"), ("uid", u), ("names", Json.arr (ns.map Json.str).toArray)]
-  | .ops os v => Json.mkObj [("k", "ops"), ("ops", Json.arr (os.map jNat).toArray), ("vendor", v)]
-  | .versions vs => Json.mkObj [("k", "versions"), ("versions", Json.arr (vs.map jNat).toArray)]
-  | .crypto u c => Json.mkObj [("k", "crypto"), ("uid", u), ("c", match c with
-      | .ok t => Json.str t
-      | .verdict b => Json.bool b
-      | _ => Json.null)]
-
-def jResult (r : ItemResult) : Json :=
-  let base : List (String × Json) := [("op", jNat r.op), ("bid", jOpt Json.str r.batchId)]
-  match r.result with
-  | .ok d => Json.mkObj (base ++ [("status", Json.str "ok"), ("data", jData d)])
-  | .error (.kmip rsn msg) => Json.mkObj (base ++ [("status", Json.str "fail"), ("reason", jNat rsn), ("msg", Json.str msg)])
-  | .error (.internal site) => Json.mkObj (base ++ [("status", Json.str "fail"), ("reason", jNat Rsn.generalFailure), ("site", Json.str site)])
-
-def jObj (o : Obj) : Json :=
-  Json.mkObj [("uid", jNat o.uid), ("otype", jNat o.otype), ("owner", jOpt Json.str o.owner), ("policy", o.policy),
-    ("names", Json.arr (o.names.map Json.str).toArray), ("groups", Json.arr (o.groups.map Json.str).toArray),
-    ("appinfo", Json.arr (o.appInfo.map (fun p => Json.arr #[Json.str p.1, Json.str p.2])).toArray),
-    ("sensitive", o.sensitive), ("date", jNat o.initialDate), ("state", jOpt jNat o.state),
-    ("mask", jOpt jNat o.mask), ("alg", jOpt jNat o.alg), ("len", jOpt jNat o.len), ("format", jOpt jNat o.format),
-    ("subtype", jOpt jNat o.subtype), ("value", o.value)]
-
-structure DState where
-  engine : Engine
-  policies : Policies
-
-def mkCtx (s : DState) (now : Nat) : Ctx :=
-  { rules := Gen.attrRules, policies := s.policies, now := now, supportedVersions := Gen.supportedVersions }
+import KmipModel.Engine.Wire
+open Lean Kmip Kmip.Wire
 
 def step (s : DState) (line : String) : DState × String :=
   match Json.parse line with
